@@ -18,8 +18,9 @@ Definition c93_lookup_mods (r : Z) : option (Z * list bool) :=
 Lemma c93_table_is_standard : forall r, c93_lookup_mods r = c93_spec_entry r.
 Proof.
   intros r. destruct (Z_le_gt_dec 0 r) as [H0|H0]; [destruct (Z_le_gt_dec r 255) as [H1|H1]|].
-  - assert (In r (zrange 256)) as H by (apply in_zrange; simpl; lia).
-    by_cases H ltac:(vm_compute; reflexivity).
+  - apply entry_eqb_eq.
+    apply (forallb_zrange (fun r => entry_eqb (c93_lookup_mods r) (c93_spec_entry r)) 256);
+      [vm_compute; reflexivity | simpl; lia].
   - unfold c93_lookup_mods, c93_lookup, c93_spec_entry.
     rewrite (map_get_none_outside 0 255), (char_index_none_outside 0 255);
       [| reflexivity | lia | reflexivity | lia].
@@ -113,8 +114,11 @@ Qed.
 Lemma c93_lookup_high r : 128 <= r -> ~ (241 <= r <= 244) -> c93_lookup r = None.
 Proof.
   intros H N. destruct (Z_le_gt_dec r 255) as [H1|H1].
-  - assert (In r (zrange 256)) as Hin by (apply in_zrange; simpl; lia).
-    by_cases Hin ltac:(first [exfalso; lia | vm_compute; reflexivity]).
+  - pose proof (forallb_zrange
+        (fun r => (r <? 128) || ((241 <=? r) && (r <=? 244))
+                  || match c93_lookup r with None => true | Some _ => false end) 256
+        ltac:(vm_compute; reflexivity) r ltac:(simpl; lia)) as F.
+    cbv beta in F. destruct (c93_lookup r); [exfalso; lia | reflexivity].
   - apply (map_get_none_outside 0 255); [reflexivity | lia].
 Qed.
 
